@@ -144,7 +144,7 @@ Qed.
 Lemma NoDup_bip_edges adj : adj_nodup adj -> NoDup (bip_edges adj).
 Proof.
   intros H. pose proof (w_nodup 0 (BipEdges adj 0) ltac:(lia) H) as N.
-  cbn [indices shape_bip of_core] in N. now rewrite map_id in N.
+  cbn [vg_indices shape_bip of_core] in N. now rewrite map_id in N.
 Qed.
 
 Lemma bip_pattern_filter adj R pu pv l : adj_nodup adj -> bip_pattern adj R pu pv = Some l ->
@@ -188,22 +188,22 @@ Proof. intros [x [y ->]]. cbn [swap2]. rewrite !pm2. apply andb_comm. Qed.
 
 (* ---------- the theorem ---------- *)
 Theorem pattern_is_filter s pat l : shape_wf s -> pattern_indices s pat = Some l ->
-  l = filter (pat_matches s pat) (indices s).
+  l = filter (pat_matches s pat) (vg_indices s).
 Proof.
   intros Hw H.
-  assert (E0 : forall s', filter (pat_matches s' []) (indices s) = indices s) by (intros; now apply filter_true_id).
+  assert (E0 : forall s', filter (pat_matches s' []) (vg_indices s) = vg_indices s) by (intros; now apply filter_true_id).
   destruct s as [|ranges|kind n k|adj R|succ b|adj|n m|n m].
   - (* single *) destruct pat; [|discriminate]. injection H as <-. reflexivity.
   - (* block *) destruct Hw as [Hne Hr]. cbn [pattern_indices] in H. destruct pat as [|p pat]; [injection H as <-; now rewrite E0|].
     destruct (block_pattern (p :: pat) ranges) as [cols|] eqn:E; [|discriminate]. injection H as <-.
-    cbn [pat_matches indices]. fold rng. apply prod_sel; [|now apply block_pattern_sel].
+    cbn [pat_matches vg_indices]. fold rng. apply prod_sel; [|now apply block_pattern_sel].
     apply Forall_forall. intros c Hc. apply in_map_iff in Hc as [r [<- _]]. apply NoDup_zrange.
   - (* words *) cbn [pattern_indices] in H. destruct pat as [|p pat]; [injection H as <-; now rewrite E0|].
     destruct (all_some (p :: pat)) as [i0|] eqn:Ea; [|discriminate].
     destruct (pos_of i0 (words_enum kind n k)) eqn:Ep; [|discriminate]. injection H as <-. symmetry.
-    cbn [pat_matches indices]. apply pos_of_Some in Ep as [Ep _]. apply znth_In in Ep.
+    cbn [pat_matches vg_indices]. apply pos_of_Some in Ep as [Ep _]. apply znth_In in Ep.
     apply filter_eq_singleton; [apply NoDup_words_enum|exact Ep|]. intros y _.
-    change (pat_matches (Words kind n k) (p :: pat) y) with (pm (p :: pat) y).
+    change (pat_matches (GWords kind n k) (p :: pat) y) with (pm (p :: pat) y).
     clear -Ea. revert i0 y Ea. generalize (p :: pat). induction l as [|q qs IH]; intros i0 y Ea.
     + cbn in Ea. injection Ea as <-. destruct y; cbn [pm]; split; intros Hq; try reflexivity; try discriminate Hq.
     + cbn [all_some fold_right] in Ea. fold (all_some qs) in Ea. destruct q as [z|]; [|discriminate].
@@ -211,22 +211,22 @@ Proof.
       destruct y as [|x y]; [cbn [pm]; split; intros Hq; discriminate Hq|]. cbn [pm om]. rewrite andb_true_iff, (IH r y eq_refl), Z.eqb_eq.
       split; [intros [-> ->]; reflexivity|intros E; injection E; auto].
   - (* bipartite edges *) cbn [pattern_indices shape_bip] in H. destruct pat as [|pu [|pv [|? ?]]]; try discriminate.
-    + injection H as <-. rewrite E0. cbn [indices shape_bip of_core]. now rewrite map_id.
+    + injection H as <-. rewrite E0. cbn [vg_indices shape_bip of_core]. now rewrite map_id.
     + destruct (bip_pattern adj R pu pv) as [l0|] eqn:E; [|discriminate]. cbn [option_map] in H. injection H as <-.
-      cbn [of_core pat_matches indices shape_bip]. rewrite !map_id. eapply bip_pattern_filter; eauto.
+      cbn [of_core pat_matches vg_indices shape_bip]. rewrite !map_id. eapply bip_pattern_filter; eauto.
   - (* directed edges *) destruct b.
     + cbn [pattern_indices shape_bip] in H. destruct pat as [|pu [|pv [|? ?]]]; try discriminate.
       * injection H as <-. now rewrite E0.
       * destruct (bip_pattern (transpose succ (len succ)) (len succ) pv pu) as [l0|] eqn:E; [|discriminate].
-        cbn [option_map] in H. injection H as <-. cbn [of_core pat_matches indices shape_bip].
+        cbn [option_map] in H. injection H as <-. cbn [of_core pat_matches vg_indices shape_bip].
         apply bip_pattern_filter in E; [|apply adj_nodup_transpose]. rewrite E, filter_map_swap. f_equal.
         apply filter_ext_in. intros e He. symmetry. apply pm_swap. now apply bip_edges_pairs in He.
     + cbn [pattern_indices shape_bip] in H. destruct pat as [|pu [|pv [|? ?]]]; try discriminate.
-      * injection H as <-. rewrite E0. cbn [indices shape_bip of_core]. now rewrite map_id.
+      * injection H as <-. rewrite E0. cbn [vg_indices shape_bip of_core]. now rewrite map_id.
       * destruct (bip_pattern succ (len succ) pu pv) as [l0|] eqn:E; [|discriminate]. cbn [option_map] in H. injection H as <-.
-        cbn [of_core pat_matches indices shape_bip]. rewrite !map_id. eapply bip_pattern_filter; eauto.
+        cbn [of_core pat_matches vg_indices shape_bip]. rewrite !map_id. eapply bip_pattern_filter; eauto.
   - (* simple graph *) cbn [shape_wf] in Hw. pose proof (adj_nodup_upper_from adj Hw 1) as Hu. fold (upper adj) in Hu.
-    assert (Ei : indices (GraphEdges adj) = bip_edges (upper adj)) by (cbn [indices shape_bip of_core]; now rewrite map_id).
+    assert (Ei : vg_indices (GraphEdges adj) = bip_edges (upper adj)) by (cbn [vg_indices shape_bip of_core]; now rewrite map_id).
     cbn [pattern_indices shape_bip] in H. destruct pat as [|[u|] [|[v|] [|? ?]]]; try discriminate.
     + injection H as <-. now rewrite E0.
     + cbn [pat_matches]. rewrite Ei. eapply bip_pattern_filter; eauto.
@@ -239,14 +239,14 @@ Proof.
     + injection H as <-. cbn [pat_matches]. rewrite Ei. symmetry. apply filter_true_id.
       intros e He. apply bip_edges_pairs in He as [x [y ->]]. reflexivity.
   - (* unary mapping *) cbn [pattern_indices shape_bip] in H. destruct pat as [|pu [|pv [|? ?]]]; try discriminate.
-    + injection H as <-. rewrite E0. cbn [indices shape_bip of_core]. now rewrite map_id.
+    + injection H as <-. rewrite E0. cbn [vg_indices shape_bip of_core]. now rewrite map_id.
     + destruct (bip_pattern (complete_adj n m) m pu pv) as [l0|] eqn:E; [|discriminate]. cbn [option_map] in H. injection H as <-.
-      cbn [of_core pat_matches indices shape_bip]. rewrite !map_id. apply bip_pattern_filter in E; [exact E|apply adj_nodup_complete].
+      cbn [of_core pat_matches vg_indices shape_bip]. rewrite !map_id. apply bip_pattern_filter in E; [exact E|apply adj_nodup_complete].
   - (* binary mapping *) destruct Hw as [Hn Hm]. cbn [pattern_indices] in H. destruct pat as [|pi [|pb [|? ?]]]; try discriminate.
     + injection H as <-. now rewrite E0.
     + set (kb := bitlength m) in *.
-      assert (Ei : indices (BinMap n m) = prod [zrange 1 (n + 1); down_range kb]).
-      { cbn [indices]. symmetry. apply prod2. }
+      assert (Ei : vg_indices (BinMap n m) = prod [zrange 1 (n + 1); down_range kb]).
+      { cbn [vg_indices]. symmetry. apply prod2. }
       destruct (match pi with None => Some (zrange 1 (n + 1)) | Some i => if (1 <=? i) && (i <=? n) then Some [i] else None end) as [li|] eqn:Eli; [|discriminate].
       destruct (match pb with None => Some (down_range kb) | Some b => if (0 <=? b) && (b <? kb) then Some [b] else None end) as [lb|] eqn:Elb; [|discriminate].
       injection H as <-. cbn [pat_matches]. rewrite Ei.
